@@ -1246,6 +1246,64 @@ def run_c10_typed_stream(ctx, nstreams=None):
         for tyt, s, k in streams[:2]:
             ctx.sample({'op': 'ptk', 'ty': tyt, 'stream_hex': hx(s), 'items': k, 'cfg': cfg, 'checked': 'every cut point'})
 
+# ================================================================== typed clause of C12: long typed streams (history-dependent state)
+def run_c12_typed(ctx):
+    """StreamDeserializer over TYPED items: long histories (up to 300 items) of every container / variant kind — each item is yielded once, as a value,
+    with byte_offset() at its end, then None; nothing carried from item to item (recursion budget, scratch) may leak. Histories equal the model's."""
+    fams = [
+        ('E(41:wn0,42:S(78:n0),43:u,44:t(n0,n0))', lambda i: b'{"A":%d}' % (i % 200)),
+        ('E(41:wn0,42:S(78:n0),43:u,44:t(n0,n0))', lambda i: b'{"B":{"x":%d}}' % (i % 200)),
+        ('E(41:wn0,42:S(78:n0),43:u,44:t(n0,n0))', lambda i: b'{"D":[%d,1]}' % (i % 200)),
+        ('E(41:wn0,42:S(78:n0),43:u,44:t(n0,n0))', lambda i: b'"C"'),
+        ('an0', lambda i: b'[%d]' % (i % 200)),
+        ('msn0', lambda i: b'{"k":%d}' % (i % 200)),
+        ('S(61:n0)', lambda i: b'{"a":%d}' % (i % 200)),
+        ('S(61:n0)', lambda i: b'[%d]' % (i % 200)),
+        ('t(n0,n0)', lambda i: b'[%d,2]' % (i % 200)),
+        ('oan0', lambda i: b'[%d]' % (i % 200)),
+        ('wan0', lambda i: b'[%d]' % (i % 200)),
+        ('s', lambda i: b'"a\\n%d"' % i),                                   # strings with escapes (scratch)
+        ('d', lambda i: b'0.1234567890123456789012%d' % (i % 10)),
+        ('f', lambda i: b'0.1234567890123456789012%d' % (i % 10)),           # long literals (scratch under float_roundtrip)
+        ('ad', lambda i: b'[2.718281828459045235360287471352,0.1234567890123456789012,0.3333333333333333333333333]'),
+    ]
+    for cfg in ctx.cfgs:
+        L = ctx.letters(cfg)
+        v = []
+        lines, meta = [], []
+        for ty, f in fams:
+            for n in ((127, 128, 300) if ctx.tier == 'quick' else (1, 2, 126, 127, 128, 129, 300, 1000)):
+                for sep in (b' ', b'\n'):
+                    parts = [f(i) for i in range(n)]
+                    doc = sep.join(parts)
+                    ends, o = [], 0
+                    for q in parts:
+                        o += len(q)
+                        ends.append(o)
+                        o += len(sep)
+                    for src in ('b', 'r1', 's'):
+                        lines.append('ptk %s %s %s %d %s' % (L, src, ty, n + 2, hx(doc)))
+                        meta.append((ty, n, ends, len(doc)))
+        io, mo = ctx.both(cfg, lines, impl_name=IMPL, model_name=MODEL)
+        for (ty, n, ends, total), ln, a, m in zip(meta, lines, io, mo):
+            if a == 'SKIP':
+                continue
+            short = ln if len(ln) < 400 else ln[:200] + '...(%d items)' % n
+            items = a.split(' ')
+            okshape = len(items) == n + 2 and all(x.startswith('V') for x in items[:n]) and all(x.startswith('N') for x in items[n:])
+            if okshape:
+                offs = [int(x.rsplit('@', 1)[1]) for x in items]
+                okshape = offs[:n] == ends and all(o == total for o in offs[n:])
+            if not okshape:
+                v.append({'what': 'typed-stream-long-history', 'cfg': cfg, 'line': short, 'type': ty, 'expected': '%d values with byte_offset at the end of each item, then None' % n,
+                          'actual': a[:300] + (' ...' + a[-200:] if len(a) > 500 else ''), 'shrinkable': False})
+            elif m not in ('NOMODEL', 'SKIP') and m != a:
+                v.append({'what': 'typed-stream-history', 'cfg': cfg, 'line': short, 'expected': 'proved model: ' + m[:300], 'actual': a[:300], 'shrinkable': False})
+            else:
+                ctx.distinct_nontrivial += 1
+        ctx.violations += v
+        ctx.sample({'op': 'ptk long histories', 'cfg': cfg, 'families': len(fams), 'lines': len(lines)})
+
 # ================================================================== typed clause of C14: depth limit for every typed entry point
 LEVELS = {  # kind -> (levels consumed, ty wrapper, document wrapper)
     'a': (1, lambda t: 'a' + t, lambda d: b'[' + d + b']'),
